@@ -159,6 +159,8 @@ pub fn classify_type(db: &Db, t: &Type, cur: &str) -> R<(Kind, bool, bool)> {
                 return Ok((Kind::Struct(cur.to_string()), false, false));
             }
             match last {
+                "f64" => Ok((Kind::Sc, false, false)),
+                "Self" if cur == "F64" => Ok((Kind::Sc, false, false)),
                 "T" => Ok((Kind::Sc, false, false)),
                 "F" => Ok((Kind::Fl, false, false)),
                 "Self" => Ok((Kind::Struct(cur.to_string()), false, false)),
@@ -191,7 +193,8 @@ pub fn params_of(db: &Db, f: &Func) -> R<Vec<ParamSpec>> {
             FnArg::Receiver(r) => {
                 let is_ref = r.reference.is_some() || f.self_ref;
                 let is_mut = r.reference.is_some() && r.mutability.is_some();
-                v.push(ParamSpec { name: "self".into(), kind: Kind::Struct(f.ty.clone()), is_ref, is_mut });
+                let kind = if f.ty == "F64" { Kind::Sc } else { Kind::Struct(f.ty.clone()) };
+                v.push(ParamSpec { name: "self".into(), kind, is_ref, is_mut });
             }
             FnArg::Typed(pt) => {
                 let name = match &*pt.pat {
@@ -756,6 +759,9 @@ impl<'a> Ev<'a> {
                 if segs.len() == 1 {
                     return self.lookup(&segs[0]).ok_or(format!("unknown variable {}", segs[0]));
                 }
+                if segs == ["f64", "EPSILON"] {
+                    return Ok(Val::Real("eps_r()".into()));
+                }
                 Err(format!("path value {}", segs.join("::")))
             }
             Expr::Reference(r) => {
@@ -1105,6 +1111,27 @@ impl<'a> Ev<'a> {
         let segs = Self::path_segs(p);
         let name = segs.last().unwrap().clone();
         let head = &segs[..segs.len() - 1];
+        // inherent functions of the primitive float: <f64>::sin(*self), <f64>::mul_add(*self, a, b)
+        if head.len() == 1 && head[0] == "f64" {
+            let mut args = self.eval_args(&c.args)?;
+            if args.is_empty() {
+                return Err("float static without receiver".into());
+            }
+            let x = match strip_ref(args.remove(0)) {
+                Val::Real(x) => x,
+                _ => return Err("float function on non-scalar".into()),
+            };
+            if name == "mul_add" && args.len() == 2 {
+                if let (Val::Real(a), Val::Real(b)) = (strip_ref(args[0].clone()), strip_ref(args[1].clone())) {
+                    return Ok(self.real(format!("(({x} * {a}) + {b})")));
+                }
+            }
+            let v = scalar_method(&name, &x, &args).ok_or(format!("unsupported float function {name}"))?;
+            return Ok(match v {
+                Val::Real(e) => self.real(e),
+                o => o,
+            });
+        }
         // scalar statics
         if head.len() == 1 && (head[0] == "T" || head[0] == "F") {
             let args = self.eval_args(&c.args)?;
@@ -1278,12 +1305,14 @@ fn outs_of(ev: &mut Ev, v: &Val, k: &Kind, prefix: &str, out: &mut Vec<(String, 
 pub fn mirror_of(db: &Db, f: &Func, sigs: &HashMap<String, Mirror>) -> R<Mirror> {
     let ps = params_of(db, f)?;
     let ret = ret_kind(db, f)?;
-    let mut ev = Ev { db, cur: f.ty.clone(), lets: vec![], scopes: vec![HashMap::new()], n: 0, depth_branch: 0, sigs, memo: HashMap::new(), field_ctx: !f.prefix.is_empty() };
+    let mut ev = Ev { db, cur: f.ty.clone(), lets: vec![], scopes: vec![HashMap::new()], n: 0, depth_branch: 0, sigs, memo: HashMap::new(), field_ctx: f.prefix == "cf_" || f.prefix == "rf_" };
     let mut params = vec![];
     let mut mutates_self = false;
     for p in &ps {
-        flat_kind(db, &p.name, &p.kind, &mut params)?;
-        let v = val_of_kind(db, &p.name, &p.kind)?;
+        // `self` is a keyword: a scalar receiver (plain-float unit) is called self_v in the mirror
+        let root = if p.name == "self" && matches!(p.kind, Kind::Sc | Kind::Fl) { "self_v".to_string() } else { p.name.clone() };
+        flat_kind(db, &root, &p.kind, &mut params)?;
+        let v = val_of_kind(db, &root, &p.kind)?;
         if p.is_mut && p.name == "self" {
             mutates_self = true;
         } else if p.is_mut {
